@@ -15,7 +15,9 @@ Outcomes == {"ok", "error"}
 MustBeRefused == {"subscription_op", "two_operations", "type_definition", "undefined_fragment", "duplicate_fragment",
                   "cyclic_fragments", "self_cyclic_fragment", "unused_fragment", "required_with_default", "duplicate_args",
                   "skip_without_if", "skip_if_string", "alias_conflict_name", "alias_conflict_args", "typename_with_args",
-                  "typename_with_sub", "empty_query", "panicking_resolver", "mutation_on_query"}
+                  "typename_with_sub", "empty_query", "panicking_resolver", "mutation_on_query",
+                  "fragment_on_two_types_t_u", "fragment_on_two_types_u_t", "fragment_on_two_types_nested",
+                  "fragment_on_two_types_twice", "fragment_on_two_types_inner"}
 \* generous polynomial ceiling on validation steps for a text of n tokens
 StepBound(n) == 4 * n * n + 64
 \* what memoised validation of a w-wide, d-deep spread DAG costs, and what re-validating every spread would cost
